@@ -27,7 +27,8 @@ def rand_value_for(rng, f, rk, ck, via):
             if rng.random() < 0.3:
                 cols.append(['s', 'ZZ'] if (not cols or cols[0][0] == 's') else ['i', 999])
             kind = rng.choice('if')
-            return ['frame', {'index': idx, 'columns': cols, 'cols': [C.rand_column(rng, kind, len(idx)) for _ in cols], 'name': ['none']}]
+            mixed = rng.random() < 0.5          # value columns of different kinds (number next to text, Boolean next to number): every element must arrive as supplied
+            return ['frame', {'index': idx, 'columns': cols, 'cols': [C.rand_column(rng, rng.choice('ifUb') if mixed else kind, len(idx)) for _ in cols], 'name': ['none']}]
         return ['elem', rng.choice(ELEMS)]
     labels = f['columns'] if single_r else f['index']
     sub = [l for l in labels if rng.random() < 0.75]
@@ -38,8 +39,32 @@ def rand_value_for(rng, f, rk, ck, via):
     return ['series', sub, col['vals'], col['dt']]
 
 
+def gen_assign_frame_into_block(rng):
+    '''a Frame value whose columns have different kinds, assigned into a proper subset of the rows of adjacent columns that share ONE
+    2-D block of the target (plus an unrelated column): every addressed cell must arrive exactly as supplied'''
+    nr = rng.randint(2, 4)
+    w = rng.randint(2, 3)
+    kind = rng.choice('if')
+    cols = [C.rand_column(rng, kind, nr) for _ in range(w)] + [C.rand_column(rng, rng.choice('ifb'), nr)]
+    f = {'index': C.rand_labels(rng, nr, 'str'), 'columns': C.rand_labels(rng, w + 1, 'str'), 'cols': cols, 'name': ['none']}
+    lay = [[w, 2], [1, rng.choice([1, 2])]]
+    rows = sorted(rng.sample(range(nr), rng.randint(1, nr - 1)))
+    k = rng.randint(2, w)
+    vkinds = rng.choice([('i', 'U'), ('U', 'i'), ('b', 'i'), ('i', 'b'), ('f', 'U'), ('b', 'U'), ('i', 'f')])
+    vk = [vkinds[j % 2] for j in range(k)]
+    val = {'index': [f['index'][r] for r in rows], 'columns': f['columns'][:k], 'cols': [C.rand_column(rng, vk[j], len(rows)) for j in range(k)], 'name': ['none']}
+    via = rng.choice(['iloc', 'loc'])
+    if via == 'iloc':
+        rk, ck = ['list', rows], ['slice', ['i', 0], ['i', k], ['none']]
+    else:
+        rk, ck = ['loclist', [f['index'][r] for r in rows]], ['loclist', f['columns'][:k]]
+    return {'op': 'f_assign', 'via': via, 'f': f, 'rk': rk, 'ck': ck, 'val': ['frame', val]}, lay
+
+
 def gen_case(rng):
     r = rng.random()
+    if r < 0.06:
+        return gen_assign_frame_into_block(rng)
     ik = rng.choice(['str', 'int', 'intshift', 'auto'])
     if r < 0.62:
         f = C.rand_frame(rng, 4, 5, index_kind=ik, min_rows=1, min_cols=1)
